@@ -201,7 +201,7 @@ func init() {
 			maxNames = 4
 		}
 		hA, _ := c18Collide()
-		nameAlpha := append(append([]string{}, c18Names...), hA, "ad_server.test", "printer.lan.1", "CDN.Example.ORG")
+		nameAlpha := append(append([]string{}, c18Names...), hA, "ad_server.test", "printer.lan.1", "CDN.Example.ORG", "gw.home.arpa.")
 		build := func(nameAlpha []string, nn int, seps []string) {
 			for _, addr := range c18Addrs {
 				if addr == "" && nn != 1 {
